@@ -8,16 +8,16 @@
 
 package remoting
 
-// the envelope codec is another layer (C12): trusted frame here
-//@ func serialize.DecodeEnvelopWithRemoting
-//@   trusted
-//@ func serialize.EncodeEnvelopWithRemoting
-//@   trusted
-//@   ensures result.1 == nil ==> len(result.0) <= 4294967295
+// the envelope codec is another layer (contracts in package serialize: it never panics, C13; its round trip is not
+// under contract)
 
 // one frame on the wire: length prefix, then the encoded envelope, nothing else
+// (resource assumption: an encoded envelope is shorter than 4 GiB, so its length fits the 4-byte prefix)
 //@ func (*Mailbox).encodeEnvelopWithLength
-//@   requires envelop != nil
+//@   callspec EncodeEnvelopWithRemoting ensures result.1 == nil ==> len(result.0) <= 4294967295
+//@   requires envelop != nil && messages.regwf()
+//@   requires envSender(envelop) != nil ==> !nilptr(envSender(envelop))
+//@   requires envReceiver(envelop) != nil ==> !nilptr(envReceiver(envelop))
 //@   ensures  result.1 == nil ==> len(result.0) >= 4 && be32(result.0[0], result.0[1], result.0[2], result.0[3]) == len(result.0) - 4
 
 // onReadConn handles ONE frame. Exactly-once, in-order delivery over the stream rests on it taking exactly that
@@ -28,6 +28,6 @@ package remoting
 //@ func (*tcpConnectionActor).onReadConn
 //@   callspec HandleRemotingEnvelop requires gcount(consumed, c.conn) == old(gcount(consumed, c.conn)) + 4 + len(msgBuf)
 //@   callspec TellSelf requires gcount(consumed, c.conn) == old(gcount(consumed, c.conn)) + 4 + (msgLen > 4194304 ? 0 : msgLen)
-//@   requires c.conn != nil && !typeis(c.conn, "*bufio.Reader") && ctx != nil && c.envelopHandler != nil && !held(c.writeCloseLock)
+//@   requires c.conn != nil && !typeis(c.conn, "*bufio.Reader") && ctx != nil && c.envelopHandler != nil && !held(c.writeCloseLock) && messages.regwf()
 //@   modifies anyold, gmap(consumed), gmap(published), gmap(rearmed), gmap(remotehandled)
 //@   ensures  gcount(remotehandled, 0) <= old(gcount(remotehandled, 0)) + 1
